@@ -220,9 +220,9 @@ class BatchWorld(World):
         return {"servertype": servertype, "serializer": serializer, "compression": rng.random() < 0.35,
                 "waitall": rng.random() < 0.5, "mode": rng.choice(["normal", "normal", "oneway"]),
                 "calls": calls, "second": second, "mode2": rng.choice(["normal", "normal", "oneway"]),
-                "concurrent": rng.random() < 0.5, "a_first": rng.random() < 0.5, "bg": rng.choice([0, 0, 2, 4, 6]),
+                "concurrent": rng.random() < 0.5, "a_first": rng.random() < 0.5, "bg": rng.choice([0, 2, 4, 6]),
                 "net": {"p_frag": rng.choice([0.0, 0.0, 0.3, 0.8]), "shuffle_select": rng.random() < 0.5},
-                "lines": lines, "p_line": rng.choice([0.01, 0.03]) if lines else 0.0,
+                "lines": lines, "p_line": rng.choice([0.01, 0.03, 0.1]) if lines else 0.0,
                 "p_block": rng.choice([0.0, 0.2, 0.6, 1.0])}
 
     def line_codes(self, plan):
@@ -359,10 +359,12 @@ class BatchWorld(World):
         def run_background(p):
             try:
                 for i in range(plan["bg"]):
-                    if i % 3 == 2:
+                    if i % 2 == 1:
                         bb = api.BatchProxy(p)
                         bb.add(1)
                         bb.push(i)
+                        bb.add(2)
+                        bb.check(i)
                         list(bb())
                     else:
                         p.add(1)
